@@ -1,7 +1,97 @@
 import BoltonsVerif.C14.Proofs
+/-
+C14 — property theorems for the model of the `boltons.strutils` encoders.
+
+Vocabulary (definitions in `Model.lean` / `Proofs.lean`):
+  `Str = List Char`; `NoNul args` = no argument contains U+0000;
+  `shSplit`  = reference POSIX-sh word splitter, `none` when the shell would do anything
+               other than split into literal words (unquoted character outside the inert set,
+               `$`/backquote in double quotes, unterminated quote, NUL);
+  `crtSplit v` = the MS C runtime `parse_cmdline` rules, `v` ∈ {documented, legacy, modern};
+  `renderRange (lo, hi)` = `lo` if `lo = hi` else `lo-hi` (decimal);
+  `Canon rs`  = every run has `lo ≤ hi`, and each later run starts at least 2 above every
+               earlier run's end (strictly increasing, not mergeable = maximal ranges);
+  `Covers rs x` = `x` lies in one of the runs.
+The gzip clause of the property is about zlib (external C code): it is covered by a
+differential round-trip test in the harness, not by a theorem.
+-/
 namespace C14
+
+/-! ### shell quoting -/
+
+/-- translator obligation (re-proved against the table regenerated from the current source):
+    every character `args2sh` leaves unquoted is one the reference lexer knows to be inert -/
+theorem sh_table_sound (c : Char) (h : isSafeChar c = true) : shLiteral c = true :=
+  safe_sub_literal c h
+
+/-- `args2sh` / `escape_shell_args(style='sh')`: a POSIX shell splits the text into exactly the
+    arguments, nothing expanded — for every list of NUL-free strings -/
 theorem sh_roundtrip (args : List Str) (h : NoNul args) : shSplit (args2sh args) = some args :=
   sh_roundtrip_aux args h
+
+example : NoNul ["a b".toList, [], "it's $HOME; `x` \\ \"q\" *~\n".toList, "é".toList] := by decide
+
+/-- `args2cmd` / `escape_shell_args(style='cmd')`: the MS C runtime rules (in each of the three
+    historical variants of the `""` rule) split the text into exactly the arguments -/
 theorem cmd_roundtrip (v : CrtVariant) (args : List Str) (h : NoNul args) :
-    crtSplit v (args2cmd args) = args := cmd_roundtrip_aux v args h
+    crtSplit v (args2cmd args) = args :=
+  cmd_roundtrip_aux v args h
+
+example : crtSplit .modern (args2cmd ["a\\\\\"b c\\".toList, [], "\"".toList]) =
+    ["a\\\\\"b c\\".toList, [], "\"".toList] := by decide
+
+/-! ### integer ranges -/
+
+/-- `parse_int_list(format_int_list(L))` is the sorted list of the distinct integers of `L`:
+    strictly increasing, with exactly the members of `L` -/
+theorem int_roundtrip (L : List Nat) :
+    ∃ R, parseIntList (formatIntList L) = some R ∧ R.Pairwise (· < ·) ∧ ∀ x, x ∈ R ↔ x ∈ L := by
+  have hs := runs_isort_spec L
+  refine ⟨_, parse_format L, expand_sorted _ hs.1, fun x => ?_⟩
+  rw [mem_expand, hs.2]
+
+/-- `format_int_list` output is canonical: it is the rendering of maximal ranges covering exactly `L` -/
+theorem format_canonical (L : List Nat) :
+    ∃ rs, formatIntList L = join [','] (rs.map renderRange) ∧ Canon rs ∧ ∀ x, Covers rs x ↔ x ∈ L :=
+  ⟨_, format_eq L, (runs_isort_spec L).1, (runs_isort_spec L).2⟩
+
+/-- the canonical form is unique: a canonical rendering is a fixed point of parse-then-format is
+    implied by `int_roundtrip`; here: two lists with the same members format identically -/
+theorem format_depends_on_members (L M : List Nat) (h : ∀ x, x ∈ L ↔ x ∈ M)
+    (hL : parseIntList (formatIntList L) = parseIntList (formatIntList M)) :
+    expand (runs (isort L)) = expand (runs (isort M)) := by
+  rw [parse_format, parse_format] at hL
+  exact Option.some.inj hL
+
+/-- `complement_int_list(s, a, e)` returns exactly the integers of the window `[a, e)` (clipped at 0,
+    integers being non-negative) that are missing from `s`, as a canonical range string -/
+theorem complement_exact (s : Str) (l : List Nat) (a e : Int) (h : parseIntList s = some l) :
+    ∃ t R, complementIntList s a (some e) = some t ∧ parseIntList t = some R ∧ R.Pairwise (· < ·) ∧
+      (∀ x : Nat, x ∈ R ↔ (a ≤ (x : Int) ∧ (x : Int) < e ∧ x ∉ l)) ∧
+      ∃ rs, t = join [','] (rs.map renderRange) ∧ Canon rs := by
+  obtain ⟨R, hR, hsorted, hmem⟩ := int_roundtrip
+    ((List.range e.toNat).filter fun x => !l.contains x && !decide ((x : Int) < a))
+  obtain ⟨rs, hrs, hc, -⟩ := format_canonical
+    ((List.range e.toNat).filter fun x => !l.contains x && !decide ((x : Int) < a))
+  refine ⟨_, R, by simp only [complementIntList, h]; rfl, hR, hsorted, fun x => ?_, rs, hrs, hc⟩
+  rw [hmem]
+  simp only [List.mem_filter, List.mem_range, Bool.and_eq_true, Bool.not_eq_true',
+    List.contains_eq_mem, decide_eq_false_iff_not]
+  omega
+
+/-- with `range_end=None` the window ends just above the largest listed integer
+    (and is empty when nothing is listed) -/
+theorem complement_default_end (s : Str) (l : List Nat) (a : Int) (h : parseIntList s = some l) :
+    complementIntList s a none =
+      complementIntList s a (some (if l.isEmpty then a else (lmax l : Int) + 1)) := by
+  simp [complementIntList, h]
+
+/-- `int_ranges_from_int_list(s)` is the list of maximal ranges of the integers `s` denotes -/
+theorem int_ranges_exact (s : Str) (l : List Nat) (h : parseIntList s = some l) :
+    ∃ rs, intRanges s = some rs ∧ Canon rs ∧ ∀ x, Covers rs x ↔ x ∈ l :=
+  ⟨_, intRanges_of_parse s l h, (runs_isort_spec l).1, (runs_isort_spec l).2⟩
+
+example : parseIntList "1,3,5-8,10-11,15".toList = some [1, 3, 5, 6, 7, 8, 10, 11, 15] := by decide
+example : formatIntList [8, 1, 3, 5, 7, 6, 3, 10, 11, 15] = "1,3,5-8,10-11,15".toList := by decide
+
 end C14
